@@ -1,6 +1,8 @@
 import AITB.Model.Proto
 import AITB.Model.Learners
 import AITB.Model.LearnersCheck
+import AITB.Model.Dyna2
+import AITB.Model.PSGeneric
 open AITB AITB.Learn
 
 /-!  C11 protocol handlers.
@@ -101,6 +103,7 @@ def td : P String := do
   let πrows ← if L == "esarsa" then tab S A else pure []
   let init ← tab S A
   let initC ← if L == "dq" then tab S A else pure []
+  let k0 ← if mode == 3 then P.nat else pure 0
   let n ← P.nat
   if A == 0 || S == 0 || !(decide (0 ≤ γ)) then P.fail
   let comp := component L
@@ -112,7 +115,9 @@ def td : P String := do
   -- hypotheses of the clauses, checked by the driver itself
   let zeroStart := init.all (fun r => r.all (· == 0)) && initC.all (fun r => r.all (· == 0))
   let boundsClause := mode == 0 && zeroStart && decide (γ < 1)
-  let q0 := ofRows init
+  -- mode 3: the first k0 steps are ordinary steps (a sweep that reaches Q* through the learner's own updates); the table
+  -- they leave is the candidate Q* for the remaining steps
+  let mut starRows := init
   let mut prev := init
   let mut prevC := initC
   let mut mdl := init
@@ -122,6 +127,7 @@ def td : P String := do
   let mut nxt : List ((Nat × Nat) × Nat) := []
   let mut hypOK := true
   let mut hypS := true
+  let mut starSteps := 0
   for k in [0:n] do
     let e ← stepIn
     let out ← tab S A
@@ -156,7 +162,9 @@ def td : P String := do
         | some (s, a, x) => v := v.failIf true s!"{comp} td_out_of_bounds step {k} tableB ({s},{a}) = {ratStr x} outside [{ratStr lo},{ratStr hi}]"
         | none => pure ()
     -- (L3) clause 2: Q* of a deterministic MDP is a fixed point
-    if mode == 1 then
+    if mode == 3 && k + 1 == k0 then starRows := out
+    if mode == 1 || (mode == 3 && k ≥ k0) then
+      let q0 := ofRows starRows
       let mx := maxA A (q0 e.s1)
       let consistent := match lookupNext nxt (e.s, e.a) with
         | some s1' => s1' == e.s1
@@ -165,10 +173,11 @@ def td : P String := do
       let hyp := consistent && e.r == q0 e.s e.a - γ * mx
         && (L != "sarsa" || q0 e.s1 e.a1 == mx)
         && (L != "esarsa" || expectedQ A π q0 e.s1 == mx)
-        && (!isDQ || initC == init.map (fun r => r.map (· * 2)))
+        && (!isDQ || initC == starRows.map (fun r => r.map (· * 2)))
       if !hyp then hypS := false
       if hypS then
-        v := v.failIf (!(eqRows out init) || (isDQ && !(eqRows outC initC)))
+        starSteps := starSteps + 1
+        v := v.failIf (!(eqRows out starRows) || (isDQ && !(eqRows outC initC)))
           s!"{comp} qstar_not_fixed step {k} ({e.s},{e.a})->{e.s1} r={ratStr e.r} table={showRows out}"
     prev := out; prevC := outC
     if (k + 1) % window == 0 then
@@ -176,7 +185,8 @@ def td : P String := do
     else
       mdl := mm; mdlC := mmC
   P.eof
-  if mode == 1 && !hypS then v := { v with tag := v.tag ++ " hyp-not-met" }
+  if (mode == 1 || mode == 3) && !hypS then v := { v with tag := v.tag ++ " hyp-not-met" }
+  if (mode == 1 || mode == 3) && hypS && starSteps > 0 then v := { v with tag := v.tag ++ " qstar" }
   if mode == 0 && !(boundsClause && hypOK) then v := { v with tag := v.tag ++ " bounds-hyp-not-met" }
   if exact == n then v := { v with tag := v.tag ++ " exact" }
   if n == 0 then v := { v with tag := v.tag ++ " trivial" }
@@ -238,8 +248,17 @@ def tr : P String := do
   let mut hypS := (L.startsWith "c-" && ε == 0) || L == "sarsal"
   let mut nxt : List ((Nat × Nat) × Nat) := []
   let mut starSteps := 0
+  -- clause 1 at λ = 0 (theorems control|eval|sarsal_lambda0_bounded): zero start, γ < 1, α ∈ (0,1], ε ∈ [0,1], target rows
+  -- are distributions; the interval is the hull of the rewards seen so far
+  let isDistRows (rows : Rows) : Bool := rows.all (fun r => r.all (fun x => decide (0 ≤ x)) && r.foldl (· + ·) 0 == 1)
+  let bndClause := lamFamily && lam == 0 && init.all (fun r => r.all (· == 0)) && decide (0 ≤ γ) && decide (γ < 1)
+    && decide (0 < α) && decide (α ≤ 1) && decide (0 ≤ ε) && decide (ε ≤ 1) && (!(L.startsWith "e-") || isDistRows πtR)
+  let mut rlo : Rat := 0
+  let mut rhi : Rat := 0
   for k in [0:n] do
     let s ← P.nat; let a ← P.nat; let s1 ← P.nat; let a1 ← P.nat; let r ← P.q
+    if r < rlo then rlo := r
+    if rhi < r then rhi := r
     let e : StepIn := ⟨s, a, s1, a1, r, α, 0⟩
     let outT ← traces
     let out ← tab S A
@@ -275,6 +294,13 @@ def tr : P String := do
     if lamFamily && !(decide (tol ≤ 1)) then
       v := v.failIf (!(tracesInRange tol outT)) s!"{if L == "sarsal" then "SARSAL" else "OffPolicyBase"} trace_below_cutoff_above_one step {k} learner={comp} traces={showTraces outT} tol={ratStr tol}"
     v := v.failIf (!(tracesNodup outT)) s!"{comp} trace_duplicate step {k} traces={showTraces outT}"
+    if bndClause then
+      let lo := loC rlo γ
+      let hi := hiC rhi γ
+      let slack := tolRun * (1 + absQ lo + absQ hi)
+      match firstOutside lo hi slack out with
+      | some (s', a', x) => v := v.failIf true s!"{comp} td_out_of_bounds step {k} entry ({s'},{a'}) = {ratStr x} outside [{ratStr lo},{ratStr hi}] (lambda = 0)"
+      | none => pure ()
     -- (L3) λ = 0: exactly the one-step expected backup of the target policy, nothing else moves
     if lamFamily && lam == 0 then
       let exp := toRows S A (oneStep L γ α ε A πt qp e)
@@ -301,6 +327,7 @@ def tr : P String := do
   if ill then return "skip ill_conditioned"
   if n == 0 then v := { v with tag := v.tag ++ " trivial" }
   if starSteps > 0 && starSteps == n then v := { v with tag := v.tag ++ " qstar" }
+  if bndClause then v := { v with tag := v.tag ++ " bounds" }
   v := { v with tag := v.tag ++ s!" len{if maxLen > 3 then 4 else maxLen}" }
   return v.render
 
@@ -309,7 +336,7 @@ def tr : P String := do
 def mkMDP (S A : Nat) (γ : Rat) (T : List Rat) (R : Rows) : MDP :=
   { S := S, A := A, γ := γ, T := fun s a s1 => T.getD ((s * A + a) * S + s1) 0, R := ofRows R }
 
-def psGo (mb mq : MDP) (θ : Rat) (S A : Nat) : Nat → PS → PS × Nat
+def psGo (stepF : PS → Nat → Nat → PS) (S A : Nat) : Nat → PS → PS × Nat
   | 0, st => (st, 0)
   | f+1, st =>
     if st.queue.isEmpty then (st, f+1) else
@@ -317,8 +344,13 @@ def psGo (mb mq : MDP) (θ : Rat) (S A : Nat) : Nat → PS → PS × Nat
     match st.queue[i]? with
     | none => (st, f+1)
     | some e =>
-      let st' := psStepG mb mq θ { st with queue := removeAt st.queue i } e.s e.a
-      psGo mb mq θ S A f { st' with q := ofRows (toRows S A st'.q), v := ofVec (toVec S st'.v), done := [] }
+      let st' := stepF { st with queue := removeAt st.queue i } e.s e.a
+      psGo stepF S A f { st' with q := ofRows (toRows S A st'.q), v := ofVec (toVec S st'.v), done := [] }
+
+/-- the backup the library performs for this kind of model: Eigen branch (`psStep`) for dense/sparse models, the
+    explicit loop skipping exact zeros (`psStepGen`, with the 3-argument rewards) for generic ones -/
+def psStepOf (kind : String) (m0 : MDP) (r3 : Nat → Nat → Nat → Rat) (θ : Rat) : PS → Nat → Nat → PS :=
+  if kind == "generic" then psStepGen m0 r3 θ else psStep m0 θ
 
 /-- `ps S A γ θ T[S*A*S] R[S×A] k (s a)*k | Q[S×A] V[S] qlen VIQ[S×A]` : explicit steps in the given order,
     then batchUpdateQ until the queue is empty -/
@@ -337,15 +369,14 @@ def ps : P String := do
   P.eof
   if A == 0 || S == 0 then P.fail
   let m0 := mkMDP S A γ T R                  -- the MDP the learner was given (L3 is evaluated against it)
-  -- what the code computes: the generic (non-Eigen) branch skips transitions with probability <= 1e-6
-  let m := if kind == "generic" then truncMDP S A γ m0.T (fun s a s1 => R3.getD ((s * A + a) * S + s1) 0) else m0
+  let stepF := psStepOf kind m0 (fun s a s1 => R3.getD ((s * A + a) * S + s1) 0) θ
   let comp := if kind == "generic" then "PrioritizedSweeping.generic" else "PrioritizedSweeping"
   let v : Verdict := { tag := s!"ps-{kind}" }
   -- model: same explicit steps, then pop max-priority until empty (fuel bounds the run)
   let st0 := order.foldl (fun st (p : Nat × Nat) =>
-      let st' := psStepG m m0 θ st p.1 p.2
+      let st' := stepF st p.1 p.2
       { st' with q := ofRows (toRows S A st'.q), v := ofVec (toVec S st'.v), done := [] }) PS.init
-  let (stF, left) := psGo m m0 θ S A 200000 st0
+  let (stF, left) := psGo stepF S A 200000 st0
   let covered := (List.range S).all (fun s => (List.range A).all (fun a => order.contains (s, a)))
   let mQ := toRows S A stF.q
   let tolPS : Rat := 1 / 10000000
@@ -379,8 +410,16 @@ def dynab : P String := do
   let mut prev := init
   let mut v : Verdict := { tag := "dynab" }
   let rq := ofRows rew
+  -- clause 2 for DynaQ's embedded learner: if the table the batches start from is Q* of the (deterministic) model,
+  -- every planning pass must leave it unchanged, whichever visited pair it samples
+  let q0 := ofRows init
+  let isStar := decide (0 ≤ γ) && (List.range S).all (fun s => (List.range A).all (fun a =>
+      q0 s a == rq s a + γ * maxA A (q0 ((nextR.getD s []).getD a 0))))
+  if isStar then v := { v with tag := "dynab qstar" }
   for k in [0:n] do
     let out ← tab S A
+    if isStar then
+      v := v.failIf (!(eqRows out init)) s!"DynaQ qstar_not_fixed batch {k} table={showRows out} qstar={showRows init}"
     let qp := ofRows prev
     let cands := vis.map (fun (s, a) => toRows S A (qlStep γ α A qp s a ((nextR.getD s []).getD a 0) (rq s a)))
     v := v.diffIf (!(cands.any (fun c => closeRows tolStep c out))) s!"DynaQ batch {k} is not a QLearning step on a visited pair impl={showRows out}"
@@ -415,7 +454,7 @@ def psw : P String := do
   let nev ← P.nat
   if A == 0 || S == 0 then P.fail
   let m0 := mkMDP S A γ T R
-  let m := if kind == "generic" then truncMDP S A γ m0.T (fun s a s1 => R3.getD ((s * A + a) * S + s1) 0) else m0
+  let stepF := psStepOf kind m0 (fun s a s1 => R3.getD ((s * A + a) * S + s1) 0) θ
   let mut q : Rows := (List.range S).map (fun _ => (List.range A).map (fun _ => (0 : Rat)))
   let mut vv : List Rat := (List.range S).map (fun _ => (0 : Rat))
   -- the heap's choice among equal priorities is not observable when both backups leave the table unchanged, so the
@@ -424,6 +463,9 @@ def psw : P String := do
   let mut v : Verdict := { tag := "psw" }
   let mut ill := false
   let mut pops := 0
+  let mut lastQ : Rows := q
+  let mut lastLen := 0
+  let mut stepped : List (Nat × Nat) := []
   for k in [0:nev] do
     let kind ← P.nat
     let (s, a) ← if kind == 1 then (do let s ← P.nat; let a ← P.nat; pure (s, a)) else pure (0, 0)
@@ -431,12 +473,14 @@ def psw : P String := do
     let outV ← P.rep P.q S
     let qlen ← P.nat
     if kind == 1 && !(s < S && a < A) then P.fail
+    lastQ := outQ; lastLen := qlen
+    if kind == 1 then stepped := (s, a) :: stepped
     if ill then continue
     let candsOf (queue : List QE) : List PS :=
       let base : PS := { q := ofRows q, v := ofVec vv, queue := queue, done := [] }
-      if kind == 1 then [psStepG m m0 θ base s a]
+      if kind == 1 then [stepF base s a]
       else if queue.isEmpty then [base]
-      else (topCands queue).filterMap (fun i => (queue[i]?).map (fun e => psStepG m m0 θ { base with queue := removeAt queue i } e.s e.a))
+      else (topCands queue).filterMap (fun i => (queue[i]?).map (fun e => stepF { base with queue := removeAt queue i } e.s e.a))
     let cands := queues.flatMap candsOf
     let v0 := ofVec vv
     -- a parent priority within rounding (absolute 1e-13: |V' - V| carries up to ~1e-14) of the threshold makes the push
@@ -467,16 +511,30 @@ def psw : P String := do
   if ill then v := { v with tag := v.tag ++ " prefix-only" }
   if nev == 0 then v := { v with tag := v.tag ++ " trivial" }
   if pops > 0 then v := { v with tag := v.tag ++ " pops" }
+  -- (L3) theorem ps_residual_bound on the implementation's own final table: every event is exactly one backup, so after
+  -- `nev` events with an empty queue and every pair stepped explicitly the Bellman residual is at most γ·θ·nev
+  let covered := (List.range S).all (fun s => (List.range A).all (fun a => stepped.contains (s, a)))
+  if lastLen == 0 && covered && decide (0 ≤ θ) && decide (0 ≤ γ) then
+    let res := bellmanResidual m0 (ofRows lastQ)
+    let bound := γ * θ * (nev : Rat)
+    let slack := tolRun * (1 + maxAbsRows lastQ)
+    v := v.failIf (decide (res > bound + slack)) s!"{if kind == "generic" then "PrioritizedSweeping.generic" else "PrioritizedSweeping"} residual_exceeds_theta_bound residual={ratStr res} bound={ratStr bound} events={nev}"
+    v := { v with tag := v.tag ++ (if decide (θ > 1 / 1000000) then " theta-bound" else " drained") }
   return v.render
 
-/-! ### Dyna2: two SARSAL learners; the transient one inherits the permanent one's traces before every real step -/
+/-! ### Dyna2 (model: AITB.Model.Dyna2) -/
 
-/-- `dyna2 S A γ α λ tol N next[S×A] rew[S×A] act[S] n events…`; event = `1 s a s1 a1 r` (stepUpdateQ) | `2 s0`
-    (batchUpdateQ(s0) with the deterministic internal policy `act` on the deterministic model) | `3`
-    (resetTransientLearning); after each: permanent table, transient table.  Traces are not observable through Dyna2
-    and are carried by the model; both tables are re-synchronised with the implementation after every event. -/
+/-- the simulated samples of `batchUpdateQ(s0)` on the deterministic model with the deterministic internal policy
+    (no terminal states in the harness model, so the chain never restarts) -/
+def d2Sims (nextF : Nat → Nat → Nat) (rq : QF) (pol : Nat → Nat) : Nat → Nat → Nat → List Smp
+  | 0, _, _ => []
+  | n+1, s, a => let s1 := nextF s a; let a1 := pol s1; ⟨s, a, s1, a1, rq s a⟩ :: d2Sims nextF rq pol n s1 a1
+
+/-- `dyna2 S A γ α λP λT tol N next[S×A] rew[S×A] act[S] n events…`; event = `1 s a s1 a1 r` (stepUpdateQ) | `2 s0`
+    (batchUpdateQ(s0)) | `3` (resetTransientLearning); after each: permanent table, transient table.  Traces are not
+    observable through Dyna2 and are carried by the model; both tables are re-synchronised after every event. -/
 def dyna2 : P String := do
-  let S ← P.nat; let A ← P.nat; let γ ← P.q; let α ← P.q; let lam ← P.q; let tol ← P.q; let N ← P.nat
+  let S ← P.nat; let A ← P.nat; let γ ← P.q; let α ← P.q; let lamP ← P.q; let lamT ← P.q; let tol ← P.q; let N ← P.nat
   let nextR ← P.rep (P.rep P.nat A) S
   let rew ← tab S A
   let act ← P.rep P.nat S
@@ -490,16 +548,22 @@ def dyna2 : P String := do
   let mut qT := zero
   let mut trP : List Tr := []
   let mut trT : List Tr := []
+  -- a stand-alone SARSA(λP) learner fed with the real steps only (theorem d2_permanent_is_sarsal), windowed
+  let mut soloT : List Tr := []
+  let mut soloQ := zero
   let mut v : Verdict := { tag := "dyna2" }
   let mut ill := false
+  let mut rlo : Rat := 0
+  let mut rhi : Rat := 0
+  let mut real := 0
   for k in [0:n] do
     let kind ← P.nat
-    let mut e : StepIn := ⟨0, 0, 0, 0, 0, α, 0⟩
+    let mut e : Smp := ⟨0, 0, 0, 0, 0⟩
     let mut s0 := 0
     if kind == 1 then
       let s ← P.nat; let a ← P.nat; let s1 ← P.nat; let a1 ← P.nat; let r ← P.q
-      e := ⟨s, a, s1, a1, r, α, 0⟩
-      if !(inRange S A e) then P.fail
+      e := ⟨s, a, s1, a1, r⟩
+      if !(s < S && a < A && s1 < S && a1 < A) then P.fail
     if kind == 2 then
       s0 ← P.nat
       if !(s0 < S) then P.fail
@@ -507,37 +571,49 @@ def dyna2 : P String := do
     let outT ← tab S A
     if ill then continue
     -- cut-off decisions within rounding of the cut-off cannot be followed without seeing the traces
-    let td := lam * γ
-    let nearCut (tr : List Tr) : Bool := tr.any (fun t => (t.el * td != tol) && closeQ tolStep (t.el * td) tol)
-    if nearCut trP || nearCut trT then
+    let nearCut (lam : Rat) (tr : List Tr) : Bool := tr.any (fun t => (t.el * (lam * γ) != tol) && closeQ tolStep (t.el * (lam * γ)) tol)
+    if nearCut lamP trP || nearCut lamT trP || nearCut lamT trT then
       ill := true
       continue
-    let mut mP := ofRows qP
-    let mut mT := ofRows qT
-    if kind == 1 then
-      trT := trP
-      let (tp, qp) := sarsalStep γ α lam tol trP mP e.s e.a e.s1 e.a1 e.r
-      let (tt, qt) := sarsalStep γ α lam tol trT mT e.s e.a e.s1 e.a1 e.r
-      trP := tp; mP := qp; trT := tt; mT := qt
-    else if kind == 2 then
-      trT := []
-      let mut s := s0
-      let mut a := pol s
-      for _ in [0:N] do
-        let s1 := nextF s a
-        let a1 := pol s1
-        let (tt, qt) := sarsalStep γ α lam tol trT (ofRows (toRows S A mT)) s a s1 a1 (rq s a)
-        trT := tt; mT := qt
-        s := s1; a := a1
-    else
-      mT := mP
-    let rP := toRows S A mP
-    let rT := toRows S A mT
+    let d : D2 := ⟨trP, ofRows qP, trT, ofRows qT⟩
+    let sims := if kind == 2 then d2Sims nextF rq pol N s0 (pol s0) else []
+    let d' := if kind == 1 then d2Step γ α lamP lamT tol d e else if kind == 2 then d2Batch γ α lamT tol d sims else d2Reset d
+    let rP := toRows S A d'.qP
+    let rT := toRows S A d'.qT
     v := v.diffIf (!(closeRows tolStep rP outP)) s!"Dyna2 event {k} kind={kind} permanent model={showRows rP} impl={showRows outP}"
     v := v.diffIf (!(closeRows tolStep rT outT)) s!"Dyna2 event {k} kind={kind} transient model={showRows rT} impl={showRows outT}"
+    -- (L3) what the theorems say of Dyna2, on the implementation's own tables:
+    -- batches and resets never touch the permanent table
+    if kind != 1 then
+      v := v.failIf (!(eqRows outP qP)) s!"Dyna2 permanent_table_touched event {k} kind={kind} before={showRows qP} after={showRows outP}"
+    -- a reset makes the transient table equal to the permanent one
+    if kind == 3 then
+      v := v.failIf (!(eqRows outT outP)) s!"Dyna2 reset_not_equal event {k} permanent={showRows outP} transient={showRows outT}"
+    -- the permanent learner is a stand-alone SARSA(λP) learner on the real experience
+    if kind == 1 then
+      let solo := sarsalStep γ α lamP tol soloT (ofRows soloQ) e.s e.a e.s1 e.a1 e.r
+      let rS := toRows S A solo.2
+      v := v.failIf (!(closeRows tolRun rS outP)) s!"Dyna2 permanent_not_sarsal event {k} sarsal={showRows rS} impl={showRows outP}"
+      real := real + 1
+      if real % window == 0 then
+        soloT := d'.trP; soloQ := outP
+      else
+        soloT := solo.1; soloQ := rS
+      if e.r < rlo then rlo := e.r
+      if rhi < e.r then rhi := e.r
+    -- with both lambdas 0 both tables obey the one-step bound (rewards: real ones seen so far and the model's table)
+    if lamP == 0 && lamT == 0 && decide (γ < 1) && decide (0 < α) && decide (α ≤ 1) then
+      let mlo := rew.foldl (fun acc r => r.foldl (fun m x => if x < m then x else m) acc) rlo
+      let mhi := rew.foldl (fun acc r => r.foldl (fun m x => if m < x then x else m) acc) rhi
+      let lo := loC mlo γ
+      let hi := hiC mhi γ
+      let slack := tolRun * (1 + absQ lo + absQ hi)
+      v := v.failIf (!(rowsWithin lo hi slack outP && rowsWithin lo hi slack outT)) s!"Dyna2 td_out_of_bounds event {k} permanent={showRows outP} transient={showRows outT} interval=[{ratStr lo},{ratStr hi}]"
+    trP := d'.trP; trT := d'.trT
     qP := outP; qT := outT
   P.eof
   if ill then v := { v with tag := v.tag ++ " prefix-only" }
+  if lamP == 0 && lamT == 0 then v := { v with tag := v.tag ++ " lam0" }
   if n == 0 then v := { v with tag := v.tag ++ " trivial" }
   return v.render
 
